@@ -56,10 +56,29 @@ Method: abstract interpretation of the function body over SYMBOLIC ARRAYS.
      trailing / keyword-only parameters with a default that only inert statements read are ignored.  The test is
      purely syntactic (closed list of side-effect-free functions, no method call, no store), so a skipped statement
      cannot write; what was skipped is listed under `_inert` in the status.
+  PURE LOCAL HELPERS (the extract-function refactoring).  A call `f(args...)` that nothing above explains is looked up
+     at MODULE level of the module of the calling function: `f` must be bound there only by top-level `def`s (the LAST one
+     is the one in force when the call runs) or only by `from .x import f [as g]` / `from pyfvtool.x import f` (followed
+     into x.py, which is parsed on demand and must define f exactly once); `self.m(...)` in a method of mesh.py is the
+     method `m` found along the MRO of the concrete grid class.  The callee's body is then INTERPRETED BY THE SAME
+     INTERPRETER in a FRESH environment (it sees its parameters only: no name of the caller, no module-level variable)
+     with its parameters bound by Python's rules (positional / keyword arguments, positional-only and keyword-only
+     parameters; defaults are evaluated in an empty environment, i.e. at definition time in the callee's module, and
+     must be numbers) and the value (or tuple: `a, b, c = f(...)`) it returns is used where the call stood.  Values are
+     expression trees, so the generated text is byte-identical when the refactoring keeps the expression (the printer
+     never sees the call).  REFUSED (⇒ untranslated): a decorated definition (`functools.lru_cache`: results would be
+     shared), *args / **kwargs / starred arguments, `global` / `nonlocal`, generators, nested functions / lambdas, a
+     name that is also assigned, imported, declared global, defined under an `if`, or assigned as an attribute anywhere
+     in the package (`mod.f = ...`, `setattr`), recursion and nesting deeper than 4, any statement or expression of the
+     callee the interpreter does not understand (every statement counts; inert statements are skipped as in a builder;
+     a module-level constant or cache read by the helper is an unknown name), and any store into an argument: tnum has
+     no in-place operations at all (`DX *= 0.5` is an unknown statement) and `Z[rows] = e` on a `np.zeros` received as
+     an argument is refused (arguments are frozen).  What was inlined is listed under `_helpers` in the status.
   ANY other statement or expression form makes the function `untranslated: <reason>` (no definition is emitted,
   its name is listed in `untranslated`, and the theorem about it in GenEq.lean no longer compiles).
 Trusted (not derived): the array lengths in the leaf table, C-order of `ravel` / `reshape`, `int_range(a, b)` =
-  a..b inclusive, `csr_array` semantics (entry (rows[t], cols[t]) += vals[t]).
+  a..b inclusive, `csr_array` semantics (entry (rows[t], cols[t]) += vals[t]); nobody outside the package (and no
+  `globals()` / `exec` trick inside it) replaces a module-level function at run time (the same trust the builders get).
 """
 import ast, sys, os, json
 from fractions import Fraction
@@ -252,6 +271,7 @@ class Range:            # int_range(0, n-1)
 class Zeros:
     def __init__(self, n):
         self.n = n
+        self.written = False        # `Z[rows] = e` rebinds the NAME to a Vec: a second store through an alias is refused
 
 
 class Vec:              # ghosted vector, zero on ghosts, `arr` on the interior
@@ -419,12 +439,252 @@ def module_bound_names(tree):
 
 
 SHADOWED = set()        # every name bound anywhere in the modules parsed so far (conservative)
+MODULES = {}            # module name ('diffusion') -> parsed tree; modules reached through `from .x import f` are loaded on demand
+FN_MODULE = {}          # id(FunctionDef) -> module name (module-level functions, methods of module-level classes)
+SRC_DIR = [None]        # <repo>/src/pyfvtool
 
 
-def note_module(tree):
+def set_source(src):
+    if SRC_DIR[0] != src:
+        SRC_DIR[0] = src
+        MODULES.clear()
+        FN_MODULE.clear()
+        _ATTR_STORES.clear()
+        INLINED.clear()
+
+
+def note_module(tree, name=None):
     SHADOWED.update(module_bound_names(tree))
     tinert.register(tree)
+    if name is not None:
+        MODULES[name] = tree
+        for n in tree.body:
+            if isinstance(n, ast.FunctionDef):
+                FN_MODULE[id(n)] = name
+            elif isinstance(n, ast.ClassDef):
+                for m in n.body:
+                    if isinstance(m, ast.FunctionDef):
+                        FN_MODULE[id(m)] = name
     return tree
+
+
+def parse_module(src, f):
+    """parse <src>/<f> (f = 'mesh.py') once and register it under its module name"""
+    set_source(src)
+    name = f[:-3] if f.endswith(".py") else f
+    if name in MODULES:
+        return MODULES[name]
+    return note_module(ast.parse(open(os.path.join(src, name + ".py")).read()), name)
+
+
+def load_module(name):
+    if name in MODULES:
+        return MODULES[name]
+    path = os.path.join(SRC_DIR[0] or "", name + ".py")
+    if SRC_DIR[0] is None or not os.path.isfile(path):
+        raise Bad(f"module {name} of the package not found")
+    try:
+        tree = ast.parse(open(path).read())
+    except SyntaxError:
+        raise Bad(f"module {name} does not parse")
+    return note_module(tree, name)
+
+
+# ---------------------------------------------------------------------------------------------------------
+# PURE LOCAL HELPERS (the extract-function refactoring): name resolution, checks on the definition, argument binding.
+# Shared by tnum / tupw / tavg (class Interp below and its subclasses) and tbc (its own interpreter).
+# ---------------------------------------------------------------------------------------------------------
+HELPER_DEPTH = 4        # helper calls nested deeper than this are refused (recursion is refused outright)
+INLINED = {}            # {translated function: [module.helper, ...]}: what was inlined (status key `_helpers`)
+_ATTR_STORES = {}
+
+
+def _scope_defs(body, name):
+    """number of `def` / `class` statements binding `name` in the scope of `body` (compound statements are entered,
+    function and class bodies are not)"""
+    n = 0
+    for st in body:
+        if isinstance(st, (ast.FunctionDef, ast.AsyncFunctionDef, ast.ClassDef)):
+            n += st.name == name
+            continue
+        for b in tinert._sub_blocks(st):
+            n += _scope_defs(b, name)
+    return n
+
+
+def resolve_helper(modname, name, hops=0):
+    """what the module-level name `name` of module `modname` denotes when a function of that module calls it:
+    (FunctionDef, module name), or None when the name is not bound at module level by a `def` / a `from .x import` of
+    the package; Bad when it is bound in a way that is not understood.  The LAST top-level `def` wins (the call runs
+    after the module body); a name that is also assigned / imported / declared `global` / defined under an `if` is
+    refused; an imported helper must have exactly one definition in its module."""
+    tree = MODULES.get(modname)
+    if tree is None:
+        return None
+    bound = tinert._bindings(tree.body, deep=False)
+    kinds = bound.get(name)
+    if not kinds:
+        return None
+    if not any(k[0] in ("def", "from") for k in kinds):
+        return None
+    if "*" in bound:
+        raise Bad(f"call {name}: the module {modname} has a star import")
+    if kinds == {("def",)}:
+        defs = [n for n in tree.body if isinstance(n, (ast.FunctionDef, ast.AsyncFunctionDef, ast.ClassDef))
+                and n.name == name]
+        if not defs or _scope_defs(tree.body, name) != len(defs):
+            raise Bad(f"call {name}: defined conditionally in {modname}.py")
+        if not isinstance(defs[-1], ast.FunctionDef):
+            raise Bad(f"call {name}: not a plain function")
+        if hops and len(defs) != 1:
+            raise Bad(f"call {name}: imported from {modname}.py, which defines it {len(defs)} times")
+        return defs[-1], modname
+    if len(kinds) == 1:
+        k = next(iter(kinds))
+        if k[0] == "from":
+            _, module, orig, level = k
+            target = None
+            if level == 1 and module and "." not in module:
+                target = module
+            elif level == 0 and module.startswith("pyfvtool.") and module.count(".") == 1:
+                target = module.split(".")[1]
+            if target is None:
+                return None                                 # numpy, scipy, ...: not a helper of the package
+            if hops >= 3:
+                raise Bad(f"call {name}: chain of re-exports too long")
+            load_module(target)
+            r = resolve_helper(target, orig, hops + 1)
+            if r is None:
+                raise Bad(f"call {name}: `{orig}` is not a function defined in {target}.py")
+            return r
+    raise Bad(f"call {name}: the name is bound in several ways at module level of {modname}.py "
+              f"({', '.join(sorted(k[0] for k in kinds))})")
+
+
+def package_attr_stores():
+    """attribute names that are assigned / deleted somewhere in the package (`x.f = ...`, `del x.f`,
+    `setattr(x, 'f', ...)`): a helper of that name could be replaced at run time"""
+    src = SRC_DIR[0]
+    if src in _ATTR_STORES:
+        return _ATTR_STORES[src]
+    out = set()
+    if src is not None:
+        for d, _, fs in os.walk(src):
+            for f in sorted(fs):
+                if not f.endswith(".py"):
+                    continue
+                try:
+                    tree = ast.parse(open(os.path.join(d, f)).read())
+                except (OSError, SyntaxError):
+                    continue
+                for n in ast.walk(tree):
+                    if isinstance(n, ast.Attribute) and isinstance(n.ctx, (ast.Store, ast.Del)):
+                        out.add(n.attr)
+                    elif isinstance(n, ast.Call) and isinstance(n.func, ast.Name) and n.func.id in ("setattr", "delattr") \
+                            and len(n.args) >= 2 and isinstance(n.args[1], ast.Constant):
+                        out.add(n.args[1].value)
+    _ATTR_STORES[src] = out
+    return out
+
+
+def check_helper_def(fn):
+    """the definition must be a plain function: no decorator (a cached helper, e.g. `functools.lru_cache`, shares its
+    results), no *args / **kwargs, no global / nonlocal, no generator, no nested scope, never re-assigned as an attribute"""
+    nm = getattr(fn, "name", "?")
+    if not isinstance(fn, ast.FunctionDef):
+        raise Bad(f"helper {nm} is not a plain function")
+    if fn.decorator_list:
+        raise Bad(f"helper {nm} is decorated (@{ast.unparse(fn.decorator_list[0])[:40]}): its results could be cached / shared")
+    if fn.args.vararg or fn.args.kwarg:
+        raise Bad(f"helper {nm} takes *args / **kwargs")
+    for x in ast.walk(fn):
+        if x is fn:
+            continue
+        if isinstance(x, (ast.Global, ast.Nonlocal)):
+            raise Bad(f"helper {nm} declares global / nonlocal names")
+        if isinstance(x, (ast.Yield, ast.YieldFrom, ast.Await)):
+            raise Bad(f"helper {nm} is a generator / coroutine")
+        if isinstance(x, (ast.FunctionDef, ast.AsyncFunctionDef, ast.ClassDef, ast.Lambda)):
+            raise Bad(f"helper {nm} contains a nested function / class / lambda")
+    if nm in package_attr_stores():
+        raise Bad(f"helper {nm}: an attribute of that name is assigned somewhere in the package")
+
+
+def is_immutable_scalar(v):
+    return isinstance(v, Poly) or (hasattr(v, "dims") and hasattr(v, "fn") and not v.dims
+                                   and getattr(v, "kind", None) == "num")
+
+
+def bind_call(fn, node, ev_arg, ev_default, first=()):
+    """{parameter name: value}: Python's binding of the call `node` to the signature of `fn` (positional and keyword
+    arguments, positional-only / keyword-only parameters, defaults).  Arguments are evaluated with `ev_arg` (the
+    caller), defaults with `ev_default` (the callee's module, at definition time: only immutable numbers are accepted).
+    Extra parameters that only inert statements read (tinert) are left unbound when they get a constant / their default."""
+    nm = fn.name
+    a = fn.args
+    if any(isinstance(x, ast.Starred) for x in node.args) or any(k.arg is None for k in node.keywords):
+        raise Bad(f"call of {nm} with starred arguments")
+    inert = set(tinert.extra_inert_params(fn))
+    posonly = [p.arg for p in a.posonlyargs]
+    pos = posonly + [p.arg for p in a.args]
+    kwonly = [p.arg for p in a.kwonlyargs]
+    given = {}
+    supplied = [("val", v) for v in first] + [("node", x) for x in node.args]
+    if len(supplied) > len(pos):
+        raise Bad(f"call of {nm}: {len(supplied)} positional arguments for {len(pos)} parameters")
+    for p, x in zip(pos, supplied):
+        given[p] = x
+    for k in node.keywords:
+        if k.arg in given:
+            raise Bad(f"call of {nm}: multiple values for {k.arg}")
+        if k.arg in posonly or k.arg not in pos + kwonly:
+            raise Bad(f"call of {nm}: unexpected keyword {k.arg}")
+        given[k.arg] = ("node", k.value)
+    defaults = dict(zip(pos[len(pos) - len(a.defaults):], a.defaults))
+    defaults.update({p: d for p, d in zip(kwonly, a.kw_defaults) if d is not None})
+    bound = {}
+    for p in pos + kwonly:
+        if p in given:
+            kind, x = given[p]
+            if kind == "val":
+                bound[p] = x
+            elif p in inert and isinstance(x, ast.Constant):
+                continue
+            else:
+                bound[p] = ev_arg(x)
+        elif p in defaults:
+            if p in inert:
+                continue
+            try:
+                v = ev_default(defaults[p])
+            except Bad as ex:
+                raise Bad(f"call of {nm}: default of {p}: {ex}")
+            if not is_immutable_scalar(v):
+                raise Bad(f"call of {nm}: the default of {p} is not a number")
+            bound[p] = v
+        else:
+            raise Bad(f"call of {nm}: missing argument {p}")
+    return bound
+
+
+QUIET_HELPERS = set()   # helpers the unmodified package already has (tupw / tavg inline them since their first version)
+
+
+def note_inlined(top, modname, fn):
+    if fn.name in QUIET_HELPERS:
+        return
+    lst = INLINED.setdefault(top, [])
+    q = f"{modname}.{fn.name}"
+    if q not in lst:
+        lst.append(q)
+
+
+def annotate_helpers(status):
+    """add the record of the inlined helpers (nothing is added when there is none)"""
+    if INLINED:
+        status = dict(status)
+        status["_helpers"] = {k: list(v) for k, v in sorted(INLINED.items())}
+    return status
 
 
 # ---------------------------------------------------------------------------------------------------------
@@ -436,9 +696,19 @@ class Interp:
         self.mesh, self.cls, self.par, self.ndim = mesh, cls, par, ndim
         self.env = {}
         self.result = None
+        self.fn, self.modname, self.locals = None, None, set()     # the function being interpreted, its module
+        self.is_helper, self.hstack, self.frozen_objs = False, [], []
 
     # ---- statements
+    def enter(self, fn):
+        """remember the function being interpreted (its module resolves the helpers it calls)"""
+        self.fn = fn
+        if self.modname is None:
+            self.modname = FN_MODULE.get(id(fn))
+        self.locals = set(tinert._bindings([fn.args] + list(fn.body), deep=False))
+
     def run(self, fn):
+        self.enter(fn)
         inert = tinert.analysis(fn)
         for st in fn.body:
             if self.result is not None:
@@ -473,6 +743,14 @@ class Interp:
         t = st.targets[0]
         if isinstance(t, ast.Tuple) and all(isinstance(e, ast.Name) for e in t.elts):
             v = self.ev(st.value)
+            if isinstance(v, Tup):                  # `a, b, c = <tuple>` (e.g. the tuple a helper returns)
+                if len(v.items) != len(t.elts):
+                    raise Bad(f"unpacking {len(v.items)} values into {len(t.elts)} names (line {st.lineno})")
+                if any(isinstance(x, Ref) and x.what[0] != "dims" for x in v.items):
+                    raise Bad(f"tuple assignment of {ast.unparse(st.value)[:40]}")
+                for e, x in zip(t.elts, v.items):
+                    self.env[e.id] = x
+                return
             if not (isinstance(v, Ref) and v.what[0] == "dims"):
                 raise Bad(f"tuple assignment from {ast.unparse(st.value)}")
             if self.ndim is None:
@@ -486,6 +764,11 @@ class Interp:
             z = self.env.get(t.value.id)
             if not isinstance(z, Zeros):
                 raise Bad(f"item assignment to {t.value.id}, which is not a fresh np.zeros(n)")
+            if any(z is o for o in self.frozen_objs):
+                raise Bad(f"item assignment to {t.value.id}, an argument of the helper")
+            if z.written:
+                raise Bad(f"item assignment to {t.value.id}: that np.zeros(n) was already assigned under another name")
+            z.written = True
             rows = self.ev(t.slice)
             val = self.ev(st.value)
             self.need_ndim()
@@ -619,6 +902,8 @@ class Interp:
     def ev_Name(self, node):
         if node.id in self.env:
             return self.env[node.id]
+        if self.is_helper:                  # a helper sees its own parameters (bound in env) only
+            raise Bad(f"name {node.id}")
         if node.id == self.par:
             return Ref("par")
         if node.id == "self" and self.par is None:
@@ -874,7 +1159,83 @@ class Interp:
             b = self.ev(f.value)
             if isinstance(b, Ref) and b.what[0] == "mesh":
                 return self.cell_numbers()
+        r = self.local_helper(node)
+        if r is not None:
+            return r[0]
         raise Bad(f"call {ast.unparse(f)[:40]}")
+
+    # ---- pure local helpers (extract-function): see the section PURE LOCAL HELPERS above
+    def is_param_name(self, name):
+        return not self.is_helper and (name == self.par or (name == "self" and self.par is None))
+
+    def local_helper(self, node):
+        """(value,) of a call `f(...)` of a module-level function of the same module / imported from another module of
+        the package, or `self.m(...)` of a method of the grid class, interpreted inline; None when the call is neither"""
+        f = node.func
+        if isinstance(f, ast.Name):
+            if f.id in self.env or f.id in self.locals or self.is_param_name(f.id) or self.modname is None:
+                return None
+            r = resolve_helper(self.modname, f.id)
+            if r is None:
+                return None
+            return (self.call_helper(r[0], r[1], node),)
+        if isinstance(f, ast.Attribute) and isinstance(f.value, ast.Name) and f.value.id != "np":
+            try:
+                base = self.ev(f.value)
+            except Bad:
+                return None
+            if isinstance(base, Ref) and base.what[0] == "mesh" and self.cls is not None:
+                m = self.mesh.method(self.cls, f.attr)            # MRO of the concrete class, last definition
+                return (self.call_helper(m, FN_MODULE.get(id(m), "mesh"), node, first=(base,)),)
+        return None
+
+    def spawn_helper(self, fn, modname):
+        """a fresh interpreter of the same kind for the body of a helper: empty environment, same grid"""
+        sub = Interp(self.mesh, self.cls, self.par, self.ndim)
+        self.init_helper(sub, modname)
+        return sub
+
+    def init_helper(self, sub, modname):
+        sub.is_helper, sub.modname = True, modname
+        sub.hstack = self.hstack + [self.fn]
+        sub.frozen_objs = list(self.frozen_objs)
+        if sub.ndim is None:
+            sub.ndim = self.ndim
+
+    def check_helper_arg(self, name, v):
+        pass
+
+    def freeze(self, sub, values):
+        """the arguments are FROZEN inside the helper (no store into them: the caller's view would not see it)"""
+        def walk(v):
+            sub.frozen_objs.append(v)
+            if isinstance(v, Tup):
+                for x in v.items:
+                    walk(x)
+        for v in values:
+            walk(v)
+
+    def call_helper(self, fn, modname, node, first=()):
+        nm = getattr(fn, "name", "?")
+        check_helper_def(fn)
+        chain = [f.name for f in self.hstack + [self.fn] if f is not None]
+        if fn is self.fn or any(f is fn for f in self.hstack):
+            raise Bad(f"helper {nm} is recursive ({' > '.join(chain + [nm])})")
+        if len(self.hstack) >= HELPER_DEPTH:
+            raise Bad(f"helper calls nested deeper than {HELPER_DEPTH} ({' > '.join(chain + [nm])})")
+        bound = bind_call(fn, node, self.ev, lambda e: self.spawn_helper(fn, modname).ev(e), first)
+        for v in bound.values():
+            self.check_helper_arg(nm, v)
+        sub = self.spawn_helper(fn, modname)
+        sub.env.update(bound)
+        self.freeze(sub, list(bound.values()))
+        try:
+            res = sub.run(fn)
+        except Bad as ex:
+            raise Bad(f"{nm}: {ex}")
+        top = (self.hstack + [self.fn])[0]
+        note_inlined(top.name if top is not None else "?", modname, fn)
+        return res
 
     def np_call(self, name, node):
         if node.keywords:
@@ -1122,7 +1483,7 @@ def generate(repo):
     tinert.set_repo(repo)
 
     def parse(f):
-        return note_module(ast.parse(open(os.path.join(src, f)).read()))
+        return parse_module(src, f)
     status, out = {}, [HEADER]
     mesh_tree = parse("mesh.py")
     mesh = MeshInfo(mesh_tree)
@@ -1178,7 +1539,7 @@ def main():
     repo = os.environ.get("VERIF_REPO", "/repo")
     dst = sys.argv[1]
     text, status = generate(repo)
-    status = tinert.annotate(status)
+    status = annotate_helpers(tinert.annotate(status))
     write_if_changed(dst, text)
     base = os.path.splitext(os.path.basename(dst))[0].lower()
     write_if_changed(os.path.join(os.path.dirname(os.path.abspath(dst)), f"{base}_status.json"),
